@@ -575,3 +575,24 @@ Proof.
     unfold st2. rewrite respond_fw_config_keeps_fw.
     apply (block_answer_loaded _ t v i fw _ (req_payload_ok t v i Ht Hv Hi) G).
 Qed.
+
+(* re-publishing: whatever the state held before (another image under the same
+   (t, v), nodes in the middle of a download, any earlier history), after
+   make_update stored img under (t, v) every later answer to a block request
+   for (t, v) - after any further history of requests, from any node - is a
+   block of the NEW prepared image, or no answer at all *)
+Lemma republish_serves_new : forall known st nids t v img hist n i,
+  word_ok t = true -> word_ok v = true -> word_ok i = true ->
+  let st1 := make_update known st nids (AInt t) (AInt v) (Some img) in
+  let a := snd (respond_fw (fst (serve_all st1 hist)) n (req_payload t v i)) in
+  a = Ok None \/
+  a = Ok (Some (hexlify (le16 t ++ le16 v ++ le16 i)
+                ++ hexlify (fw_block (fw_data (prepare_fw img)) i))).
+Proof.
+  intros known st nids t v img hist n i Ht Hv Hi st1 a.
+  destruct (make_update_spec known st nids t v img Ht Hv) as (G & _ & _). fold st1 in G.
+  destruct (block_answer_history_independent st1 hist n (req_payload t v i)) as [H|H].
+  - left. exact H.
+  - right. unfold a. rewrite H.
+    apply (block_answer_loaded _ t v i _ _ (req_payload_ok t v i Ht Hv Hi) G).
+Qed.
